@@ -13,6 +13,7 @@ From EV Require Import Base.Bytes gen.Consts Base.GoSem gen.Pure Helpers.Helpers
 Theorem tie_computeGasRemaining : forall (snd_is_nil : bool) provided cost,
   P.computeGasRemaining snd_is_nil provided cost = Some (compute_gas_remaining (negb snd_is_nil) provided cost).
 Proof. intros n p c. unfold P.computeGasRemaining, compute_gas_remaining, sub64. tie. Qed.
+#[global] Hint Rewrite tie_computeGasRemaining : pure_tie.
 
 (* ---- C06: anything proved of the model's gas helper holds of the value the Go function returns ---- *)
 Theorem P_computeGasRemaining_transport : forall (snd_is_nil : bool) provided cost (Q : N -> Prop),
